@@ -105,7 +105,29 @@ def run(plan):
             return
         for k in splits:
             k = k % (len(recs) + 1)
-            st, raw_k, snap_k = await query([(recs[:k], True), (recs[k:], False)], late_dup=bool(plan.get("late_dup")))
+            if plan.get("lose_page2_first"):
+                # history: the exchange for the additional page goes unanswered once; a later complete query must
+                # still give the full set
+                dev.caps_pages = [(recs[:k], plan.get("flag1", True)), (recs[k:], False)]
+                ac0 = w.ns.AC(ip=HOST, port=PORT, device_id=s.device_id)
+                if s.version == 3:
+                    await capture(w, ac0.authenticate(s.token.hex(), s.key.hex()))
+                dev.script = [{}, {"drop": True}, {"drop": True}, {"drop": True}]
+                await capture(w, ac0.get_capabilities())
+                dev.script = []
+                o2 = await capture(w, ac0.get_capabilities())
+                if o2.kind != "ok":
+                    res.fail(f"get_capabilities raised {o2.exc_type} on a paged list", f"split {k}, retry after a lost page")
+                    return
+                snap_r = {a: ([int(x) for x in getattr(ac0, a)] if isinstance(getattr(ac0, a), list) else getattr(ac0, a))
+                          for a in CAPS_ATTRS}
+                if snap_r != snap_full:
+                    diff = {a: (snap_full[a], snap_r[a]) for a in CAPS_ATTRS if snap_full[a] != snap_r[a]}
+                    res.fail("public capability attributes differ between one response and a paged delivery",
+                             f"split {k}, complete query after one whose additional page was lost: {diff}")
+                    return
+                w.fire("additional_page_lost_then_complete_query")
+            st, raw_k, snap_k = await query([(recs[:k], plan.get("flag1", True)), (recs[k:], False)], late_dup=bool(plan.get("late_dup")))
             if st != "ok":
                 res.fail(f"get_capabilities {st} on a paged list", f"split {k}: {snap_k if isinstance(snap_k, dict) and st.startswith('changed') else ''}")
                 return
@@ -125,7 +147,7 @@ def run(plan):
     except (SimDeadlock, SimStepLimit) as e:
         res.fail(f"liveness: {type(e).__name__}", str(e))
     res.take(w)
-    res.key = (tuple((c, v) for c, v in plan["records"]), tuple(splits), plan.get("flag"), bool(plan.get("late_dup")))
+    res.key = (tuple((c, v) for c, v in plan["records"]), tuple(splits), plan.get("flag"), bool(plan.get("late_dup")), repr(plan.get("flag1")), bool(plan.get("lose_page2_first")))
     res.nontrivial = len(recs) >= 2
     return res
 
@@ -191,7 +213,9 @@ def space(tier):
         else:
             splits = sorted({rng.randrange(0, n + 1) for _ in range(rng.randint(1, 3))})
         return {"config": {"version": rng.choice([2, 2, 3])}, "records": recs, "splits": splits,
-                "flag": rng.choice([None, False]), "late_dup": rng.random() < 0.3}
+                "flag": rng.choice([None, False]), "late_dup": rng.random() < 0.3,
+                # the flag byte announcing a further page: any non-zero value
+                "flag1": rng.choice([True, True, 1, 2, 3, 0x80, 0xFF]), "lose_page2_first": rng.random() < 0.15}
     sp.add("random", 2500 if tier == "quick" else 400_000, rnd)
     return sp
 
